@@ -455,3 +455,93 @@ theorem readMsg_spec (L : Lawful C) (st : RW μ κ) (inp : Bytes) : Spec C st in
           exact .badFrame h16 t fb fm rest f rfl l1 l2 ht hf m1 m2 hfm
     · rw [if_pos ht]
       exact .badHeader h16 t X rfl l1 l2 ht
+
+/-! ### discovery datagrams -/
+
+/-- the three slices of a datagram that is long enough -/
+theorem packet_slices (buf : Bytes) (h : ¬ buf.length < headSize + 1) :
+    goSlice buf 0 macSize = .ok (buf.take macSize) ∧
+    goSlice buf macSize headSize = .ok ((buf.drop macSize).take (headSize - macSize)) ∧
+    goSliceFrom buf headSize = .ok (buf.drop headSize) ∧ goSliceFrom buf macSize = .ok (buf.drop macSize) := by
+  have e1 : headSize = 97 := rfl
+  have e2 : macSize = 32 := rfl
+  refine ⟨?_, ?_, ?_, ?_⟩
+  · rw [goSlice_ok _ _ _ (Nat.zero_le _) (by omega)]; simp
+  · rw [goSlice_ok _ _ _ (by omega) (by omega)]
+  · unfold goSliceFrom; rw [goSlice_ok _ _ _ (by omega) (Nat.le_refl _)]
+    rw [List.take_of_length_le (by rw [List.length_drop]; omega)]
+  · unfold goSliceFrom; rw [goSlice_ok _ _ _ (by omega) (Nat.le_refl _)]
+    rw [List.take_of_length_le (by rw [List.length_drop]; omega)]
+
+/-- `decodePacket` on a datagram that is long enough, without the bounds checks -/
+theorem decodePacket_long (D : DCrypto) (buf : Bytes) (h : ¬ buf.length < headSize + 1) :
+    decodePacket D buf =
+      if buf.take macSize ≠ D.hash (buf.drop macSize) then .reject .badHash
+      else match D.recover (D.hash (buf.drop headSize)) ((buf.drop macSize).take (headSize - macSize)) with
+        | none => .reject .badSig
+        | some fromID =>
+          if (buf.drop headSize).getD 0 0 ∈ knownTypes then
+            match D.body ((buf.drop headSize).getD 0 0) ((buf.drop headSize).drop 1) with
+            | none => .reject .badBody
+            | some req => .ok ((buf.drop headSize).getD 0 0) fromID (buf.take macSize) req
+          else .reject .unknownType := by
+  obtain ⟨s1, s2, s3, s4⟩ := packet_slices buf h
+  have e1 : headSize = 97 := rfl
+  unfold decodePacket
+  rw [if_neg h, s1, s2, s3, s4]
+  simp only []
+  rw [goIndex_ok _ 0 (by rw [List.length_drop]; omega)]
+  unfold goSliceFrom
+  rw [goSlice_ok _ 1 _ (by rw [List.length_drop]; omega) (Nat.le_refl _)]
+  have ht : List.take ((List.drop headSize buf).length - 1) (List.drop 1 (List.drop headSize buf))
+      = List.drop 1 (List.drop headSize buf) := List.take_of_length_le (by simp; omega)
+  rw [ht]
+  rfl
+
+
+/-! ### RLP sizes -/
+
+/-- a node as the table holds it: an IP of at most 16 bytes, 16-bit ports, a 64-byte id -/
+def NodeOk (n : RpcNode) : Prop := n.ip.length ≤ 16 ∧ n.udp < 65536 ∧ n.tcp < 65536 ∧ n.id.length = Gen.DiscNodeIDBytes
+
+theorem natBytesBE_len_le (n k : Nat) (h : n < 256 ^ k) : (Codec.natBytesBE n).length ≤ k :=
+  Codec.natBytesBE_length_le n k h
+
+theorem nodeLen_le (n : RpcNode) (h : NodeOk n) : nodeLen n ≤ 91 := by
+  obtain ⟨h1, h2, h3, h4⟩ := h
+  have e : Gen.DiscNodeIDBytes = 64 := rfl
+  have a1 : rlpBytesLen n.ip ≤ 17 := by
+    unfold rlpBytesLen rlpHdrLen; split
+    · omega
+    · rw [if_pos (by omega)]; omega
+  have a2 : rlpUintLen n.udp ≤ 3 := by
+    unfold rlpUintLen; split
+    · omega
+    · have := natBytesBE_len_le n.udp 2 (by omega); omega
+  have a3 : rlpUintLen n.tcp ≤ 3 := by
+    unfold rlpUintLen; split
+    · omega
+    · have := natBytesBE_len_le n.tcp 2 (by omega); omega
+  have a4 : rlpBytesLen n.id ≤ 66 := by
+    unfold rlpBytesLen rlpHdrLen; rw [h4, e]
+    split
+    · omega
+    · have := natBytesBE_len_le 64 1 (by decide); split <;> omega
+  unfold nodeLen
+  simp only []
+  have : rlpHdrLen (rlpBytesLen n.ip + rlpUintLen n.udp + rlpUintLen n.tcp + rlpBytesLen n.id) ≤ 2 := by
+    unfold rlpHdrLen; split
+    · omega
+    · have := natBytesBE_len_le (rlpBytesLen n.ip + rlpUintLen n.udp + rlpUintLen n.tcp + rlpBytesLen n.id) 1 (by omega); omega
+  omega
+
+theorem nodesLen_le (ns : List RpcNode) (h : ∀ n ∈ ns, NodeOk n) : nodesLen ns ≤ 91 * ns.length := by
+  induction ns with
+  | nil => simp [nodesLen]
+  | cons n t ih =>
+    have := nodeLen_le n (h n (by simp))
+    have := ih (fun x hx => h x (by simp [hx]))
+    simp only [nodesLen, List.length_cons]; omega
+
+
+end ZV.Frame
